@@ -126,6 +126,8 @@ def const_key(c):
             return (k, c[k])
     if "bytes" in c:
         return ("bytes", tuple(c["bytes"]))
+    if "array" in c:
+        return ("array", tuple((x.get("cp") if isinstance(x, dict) else x) for x in c["array"]))
     if "fn" in c:
         return ("fn", c["fn"].get("resolved") or c["fn"]["path"])
     if "promoted" in c:
